@@ -401,6 +401,41 @@ func propC10(w *World, r *Report) {
 			}
 		}
 	}
+	// nothing but a failure ends the clean-up early: a return inside one of its loops (remaining directories / files
+	// not yet visited) must carry a non-nil error - start-up is then aborted (D4) instead of serving with debris left
+	{
+		fam := map[*ssa.Function]bool{cleanup: true, worker: true}
+		for _, b := range worker.Blocks {
+			for _, in := range b.Instrs {
+				if c, ok := in.(*ssa.Call); ok {
+					if pi := removesAllOfParam(w, c.Call.StaticCallee()); pi >= 0 {
+						fam[c.Call.StaticCallee()] = true
+					}
+				}
+			}
+		}
+		var fl []*ssa.Function
+		for f := range fam {
+			fl = append(fl, f)
+		}
+		sort.Slice(fl, func(i, j int) bool { return fl[i].Name() < fl[j].Name() })
+		nret := 0
+		for _, f := range fl {
+			for _, b := range f.Blocks {
+				ret, ok := b.Instrs[len(b.Instrs)-1].(*ssa.Return)
+				if !ok || len(ret.Results) == 0 {
+					continue
+				}
+				nret++
+				if !loopReachable(b) {
+					continue
+				}
+				v := ret.Results[len(ret.Results)-1]
+				r.Check(provablyNonNilError(ge, b, v), "D5", "the clean-up ends before its loops are through only with a non-nil error: "+f.Name(), w.InstrPos(ret), "returned: "+ge.termOf(v).String())
+			}
+		}
+		r.Check(nret >= 2, "G4", "returns of the clean-up found", "-", fmt.Sprint(nret))
+	}
 	var rels []string
 	for d := range dirRel {
 		rels = append(rels, d)
@@ -1104,4 +1139,82 @@ func checkStopToleratesClosed(w *World, r *Report, rule string) {
 		}
 	}
 	r.Check(ok && nClosed >= 1, rule, "the file recorder's StopRecording with no file open does nothing and returns nil (the writer is used only where it was found non-nil)", w.Pos(stop.Pos()), fmt.Sprintf("%d paths, %d without an open file; %s", len(paths), nClosed, detail))
+}
+
+// loopReachable: b is reached from inside the body of some loop by another way than the loop header's own exit edge
+// (a return or break out of the middle of an iteration: the remaining iterations are skipped).
+func loopReachable(b *ssa.BasicBlock) bool {
+	fn := b.Parent()
+	reach := func(from, to *ssa.BasicBlock, skip func(x, y *ssa.BasicBlock) bool) bool {
+		seen := map[*ssa.BasicBlock]bool{from: true}
+		work := []*ssa.BasicBlock{from}
+		for len(work) > 0 {
+			x := work[len(work)-1]
+			work = work[:len(work)-1]
+			for _, y := range x.Succs {
+				if skip != nil && skip(x, y) {
+					continue
+				}
+				if y == to {
+					return true
+				}
+				if !seen[y] {
+					seen[y] = true
+					work = append(work, y)
+				}
+			}
+		}
+		return false
+	}
+	for _, h := range fn.Blocks {
+		back := false
+		for _, p := range h.Preds {
+			if h.Dominates(p) {
+				back = true
+			}
+		}
+		if !back || !h.Dominates(b) {
+			continue
+		}
+		body := map[*ssa.BasicBlock]bool{h: true}
+		for _, x := range fn.Blocks {
+			if h.Dominates(x) && reach(x, h, nil) {
+				body[x] = true
+			}
+		}
+		if reach(h, b, func(x, y *ssa.BasicBlock) bool { return x == h && !body[y] }) {
+			return true
+		}
+	}
+	return false
+}
+
+// provablyNonNilError: v is a freshly made error, or the block is dominated by the true edge of v != nil.
+func provablyNonNilError(e *termEnv, b *ssa.BasicBlock, v ssa.Value) bool {
+	if c, ok := v.(*ssa.Const); ok {
+		return !c.IsNil()
+	}
+	if mi, ok := v.(*ssa.MakeInterface); ok {
+		_ = mi
+		return true // a concrete error value boxed here
+	}
+	if c, ok := v.(*ssa.Call); ok {
+		switch calleeName(c) {
+		case "errors.New", "fmt.Errorf":
+			return true
+		}
+	}
+	for _, g := range e.guardsOf(b) {
+		bo, ok := g.If.Cond.(*ssa.BinOp)
+		if !ok {
+			continue
+		}
+		isNil := func(x ssa.Value) bool { c, ok := x.(*ssa.Const); return ok && c.IsNil() }
+		if (bo.X == v && isNil(bo.Y)) || (bo.Y == v && isNil(bo.X)) {
+			if (bo.Op == token.NEQ && g.Pos) || (bo.Op == token.EQL && !g.Pos) {
+				return true
+			}
+		}
+	}
+	return false
 }
